@@ -4,7 +4,7 @@ import hashlib
 import json
 import gen
 from histcheck import chain_case
-from props.evalcommon import standard_run, standard_replay
+from props.evalcommon import standard_run, standard_replay, small_scope
 from wire import go_float_str, from_wire, to_wire
 
 PID = "C14"
@@ -305,7 +305,7 @@ def run(rep):
                  "to 3, valid and invalid arguments; judged by the model (Lean base64/SHA-256) and by independent Python "
                  "implementations (hashlib, base64); codec stage: values with look-alike and newline-terminated strings through "
                  "$encode json/yaml/toml (parsed by independent parsers), $decode of that text, and $decode+$encode in one map",
-                 oracle=oracle)
+                 oracle=oracle, extra_gens=[small_scope(PID)])
     import random
     codec_roundtrip(rep, random.Random(rep.seed + 77), 1500 if rep.tier == "quick" else 40000)
     rep.assumptions.append("json/yaml/toml text codecs are parameters of the model; their standard-ness and the $decode inverse are measured "
